@@ -1065,6 +1065,12 @@ impl Check for C15 {
         if r.chance(2, 3) {
             add_recs(&mut r, &mut d);
         }
+        if r.chance(1, 2) {
+            // a list with numbers in it (some clauses err on numbers rather than fail)
+            if let J::Map(kv) = &mut d {
+                kv.push(("nums".into(), J::List(vec![J::Int(1), J::Str("x".into()), J::Int(2)])));
+            }
+        }
         let o = GenOpts { captures: false, functions: true, allow_now: false, default_clauses: false, max_rules: 4, prules: false, ..Default::default() };
         let mut p = rules::gen_prog(&mut r, &d, &o);
         make_var_heavy(&mut r, &mut p, &d);
@@ -1073,6 +1079,9 @@ impl Check for C15 {
         }
         if !p.prules.is_empty() {
             rep.count("gen.parameterised_rule_calls", 1);
+        }
+        if p.print().contains("let twq = nums[ this") {
+            rep.count("gen.twin_query_that_errs", 1);
         }
         if p.rules.iter().filter(|x| x.name == "twin").count() == 2 {
             rep.count("gen.same_name_rules_own_variable", 1);
